@@ -94,25 +94,32 @@ def gen_c07(rng, i):
 def gen_c09(rng, i):
     nh = rng.choice([2, 2, 3])
     g = S.HistGen(rng, rng.sample(S.NAMES_PLAIN, rng.randint(2, 5)), nh=nh, logs=rng.random() < 0.3)
-    for h in range(1, nh + 1):
+    g.steps.append({"op": "open", "h": 1})
+    for t in range(rng.choice([0, 1, 3, 4, 5])):     # a few tables first, so that lower ranges exist
+        g.add(h=1)
+    for h in range(2, nh + 1):
         g.steps.append({"op": "open", "h": h})
+    ntab = g.ntab                                      # upper bound of the current stack depth
     for t in range(rng.randint(3, 10)):
         h = rng.randint(1, nh)
         x = rng.random()
-        if x < 0.55:
+        if x < 0.5:
             multi = rng.random() < 0.2
             g.add(h=h, multi=multi, nparts=2 if multi else 1)
             g.steps.append({"op": "uptodate", "h": h, "tag": "C09"})
-            if not multi:
+            if not multi and rng.random() < 0.8:
                 # immediate retry without interference: must succeed if the first attempt failed for staleness
                 g.add(h=h)
                 g.steps.append({"op": "uptodate", "h": h, "tag": "C09"})
+                ntab += 1
+            ntab += 1
             g.steps.append({"op": "view", "h": h, "tag": "C09", "hasraw": False})
-        elif x < 0.8:
+        elif x < 0.65:
             g.steps.append({"op": "compact", "h": h, "all": True})
             g.steps.append({"op": "uptodate", "h": h, "tag": "C09"})
-        elif x < 0.9:
-            g.steps.append({"op": "compact", "h": h, "first": 0, "last": 1})
+        elif x < 0.9 and ntab >= 2:
+            f = rng.randint(0, max(0, ntab - 2))
+            g.steps.append({"op": "compact", "h": h, "first": f, "last": rng.randint(f + 1, max(f + 1, ntab - 1))})
         else:
             g.steps.append({"op": "view", "h": h, "tag": "C09", "hasraw": False})
         g.steps.append({"op": "disk", "h": h, "after": "add"})
@@ -148,24 +155,45 @@ def gen_c12(rng, i):
 
 
 def gen_c13(rng, i):
-    g = S.HistGen(rng, rng.sample(S.NAMES_PLAIN, rng.randint(1, 4)))
-    g.steps.append({"op": "open", "h": 1})
-    for t in range(rng.randint(1, 6)):
-        p = g.part()
-        # several log entries, times chosen around the limits
-        for n in rng.sample(g.names, min(len(g.names), rng.randint(1, 3))):
-            if not any(l["n"] == n for l in p["logs"]):
-                l = S.rand_log(rng, n, [], g.cfg["exact"])
-                p["logs"].append(l)
-        g.add(part=p)
-    g.observe(tag="C13", raw=False)
-    idxmax = g.nextidx
-    for rep in range(rng.randint(1, 2)):
-        e = {"time": rng.choice([0, 0, 1, 5, 6, 10, 15, 16, 20, 21, 30]),
-             "min": rng.choice([0, 0, 1, 2, idxmax // 2, idxmax - 1, idxmax, idxmax + 3]),
-             "max": rng.choice([0, 0, 1, 2, idxmax // 2, idxmax - 1, idxmax, idxmax + 3])}
-        g.steps.append({"op": "compact", "h": 1, "all": True, "expiry": e})
-        g.observe(tag="C13", raw=False, after="compact")
+    nh = rng.choice([1, 1, 2])
+    g = S.HistGen(rng, rng.sample(S.NAMES_PLAIN, rng.randint(1, 4)), nh=nh)
+    for h in range(1, nh + 1):
+        g.steps.append({"op": "open", "h": h})
+
+    def writes(h):
+        for t in range(rng.randint(1, 5)):
+            p = g.part()
+            # several log entries, times chosen around the limits
+            for n in rng.sample(g.names, min(len(g.names), rng.randint(1, 3))):
+                if not any(l["n"] == n for l in p["logs"]):
+                    p["logs"].append(S.rand_log(rng, n, [], g.cfg["exact"]))
+            g.add(h=h, part=p)
+            if nh > 1 and rng.random() < 0.7:
+                g.add(h=h, part=g.part())      # retry after a possible stale failure
+        if rng.random() < 0.4:
+            g.steps.append({"op": "compact", "h": h, "all": True})
+    writes(rng.randint(1, nh))
+    g.observe(h=1, tag="C13", raw=False)
+    configs = []
+    for rep in range(rng.randint(1, 4)):
+        idxmax = g.nextidx
+        if configs and rng.random() < 0.5:
+            e = rng.choice(configs)        # the same configuration again, after other writes
+        else:
+            e = {"time": rng.choice([0, 0, 1, 5, 6, 10, 15, 16, 20, 21, 30]),
+                 "min": rng.choice([0, 0, 1, 2, idxmax // 2, idxmax - 1, idxmax, idxmax + 3]),
+                 "max": rng.choice([0, 0, 1, 2, idxmax // 2, idxmax - 1, idxmax, idxmax + 3])}
+            configs.append(e)
+        h = rng.randint(1, nh)
+        if nh > 1:
+            g.add(h=h, part=g.part())          # brings a stale handle up to date (fails, refreshes) or commits
+            if rng.random() < 0.5:
+                g.add(h=h, part=g.part())
+        g.steps.append({"op": "compact", "h": h, "all": True, "expiry": e})
+        g.steps.append({"op": "disk", "h": h, "after": "compact"})
+        g.steps.append({"op": "view", "h": h, "tag": "C13", "hasraw": False})
+        if rng.random() < 0.6:
+            writes(rng.randint(1, nh))
     return g.history("c13-%d" % i)
 
 
